@@ -273,6 +273,18 @@ impl Run {
         if self.bless {
             exit = 0;
         }
+        // frames that decoded to an enum variant the reference does not know were left unjudged (never a violation:
+        // the reference cannot see their fields); without any real violation that is "no verdict", not "held"
+        let unknown = unknown_variant_total();
+        if unknown > 0 {
+            if let Some(obj) = coverage.as_object_mut() {
+                obj.insert("unjudged_unknown_variant_cases".into(), json!(unknown));
+            }
+            if exit == 0 && !self.bless {
+                println!("MACHINERY: {unknown} projections / renderings met a variant of a subject enum that the reference does not know (a widened public enum); those cases were not judged - no verdict");
+                exit = 2;
+            }
+        }
 
         let total_v: u64 = self.viol_count.lock().unwrap().values().sum();
         let counters = self.counters.lock().unwrap().clone();
@@ -368,4 +380,25 @@ pub fn silence_panics() {
 
 pub fn last_panic_loc() -> String {
     LAST_PANIC_LOC.with(|l| l.borrow().clone())
+}
+
+// ------------------------------------------------------------------ variants the reference does not know
+thread_local! {
+    static UNKNOWN_VARIANT: std::cell::Cell<u64> = const { std::cell::Cell::new(0) };
+}
+static UNKNOWN_VARIANT_TOTAL: std::sync::atomic::AtomicU64 = std::sync::atomic::AtomicU64::new(0);
+
+/// Called from the catch-all arm of every `match` over a subject enum (unreachable on the pinned tree).
+pub fn note_unknown_variant() {
+    UNKNOWN_VARIANT.with(|c| c.set(c.get() + 1));
+    UNKNOWN_VARIANT_TOTAL.fetch_add(1, std::sync::atomic::Ordering::Relaxed);
+}
+
+/// Per-thread count: a judge compares it before / after projecting or rendering one frame.
+pub fn unknown_variant_mark() -> u64 {
+    UNKNOWN_VARIANT.with(std::cell::Cell::get)
+}
+
+pub fn unknown_variant_total() -> u64 {
+    UNKNOWN_VARIANT_TOTAL.load(std::sync::atomic::Ordering::Relaxed)
 }
